@@ -43,7 +43,7 @@ int main(int argc, char** argv) {
   GrowableBuffer<int64_t> gb(options, ptr, length, reserved);
   if (!strcmp(op, "append")) gb.append(datum);
   else if (!strcmp(op, "set_length")) gb.set_length(arg);
-  else if (!strcmp(op, "clear")) gb.clear();
+  else if (!strcmp(op, "clear")) { gb.clear(); gb.append(datum); }
   int bad = 0;
   int64_t keep = length;
   if (!strcmp(op, "set_length") && arg < keep) keep = arg < 0 ? 0 : arg;
@@ -109,6 +109,10 @@ def native(vals, op):
     return True, 'native run fails (%d): %s %s' % (r.returncode, r.stdout.strip(), ' | '.join(lines[:2]))
 
 
+def small(m):
+    return [m.sym['reserved'] <= 64, m.sym['initial'] <= 64]
+
+
 def mk_replay(m, op, argname=None):
     def replay(model, ent):
         from .kharness import fp_to_py
@@ -138,7 +142,7 @@ def h_append(unit, lo=1.5, hi=16.0, min_reserved=1):
             app.append(z3.And(g, z3.Select(m.mem.o[p.obj].arr, bv64(p.off) + L0) != datum))
     obls.append(('the appended value is stored at index old length', z3.Or(app + [z3.BoolVal(False)])))
     tw = [('reallocation path', L0 == m.sym['reserved']), ('no reallocation', L0 < m.sym['reserved'])]
-    return mdischarge(m, unit, obls, tw, timeout_ms=120000, replay=mk_replay(m, 'append'),
+    return mdischarge(m, unit, obls, tw, timeout_ms=120000, replay=mk_replay(m, 'append'), prefer=small(m),
                       extra=dict(bounds='resize in [%s, %s], reserved in [%d, 2^40]' % (lo, hi, min_reserved)))
 
 
@@ -154,7 +158,7 @@ def h_set_length(unit):
     obls, L1, R1, newptr = post(m, keep)
     obls.append(('length_ becomes the requested length', L1 != nl))
     tw = [('growth path', nl > m.sym['reserved']), ('shrink', nl < L0)]
-    return mdischarge(m, unit, obls, tw, timeout_ms=60000, replay=mk_replay(m, 'set_length', 'newlength'), extra=dict(bounds='newlength in [0, 2^40]'))
+    return mdischarge(m, unit, obls, tw, timeout_ms=60000, replay=mk_replay(m, 'set_length', 'newlength'), prefer=small(m) + [m.sym['newlength'] <= 64], extra=dict(bounds='newlength in [0, 2^40]'))
 
 
 @guard
@@ -164,7 +168,11 @@ def h_clear(unit):
     m.call('_ZN7awkward14GrowableBufferIlE5clearEv', [this])
     obls, L1, R1, newptr = post(m, z3.BitVecVal(0, 64))
     obls.append(('length_ is 0 and reserved_ is options.initial', z3.Or(L1 != 0, R1 != m.sym['initial'])))
-    return mdischarge(m, unit, obls, [], timeout_ms=60000, replay=mk_replay(m, 'clear'), extra=dict(bounds='any invariant state'))
+    # after clear() the next appends write cells 0, 1, ... of the current buffer: if snapshots may hold cells of the old buffer
+    # (old length > 0) the current buffer must be a different object
+    shared = [z3.And(g, z3.BoolVal(p.obj == 'buf0')) for g, p in ptr_cases(newptr)]
+    obls.append(('a buffer that snapshots may share is not reused after clear()', z3.And(m.sym['length'] > 0, z3.Or(shared + [z3.BoolVal(False)]))))
+    return mdischarge(m, unit, obls, [], timeout_ms=60000, replay=mk_replay(m, 'clear'), prefer=small(m), extra=dict(bounds='any invariant state'))
 
 
 def jobs(tier):
